@@ -58,6 +58,24 @@ Theorem C11_not_found_changes_nothing :
 Proof. exact not_found_changes_nothing. Qed.
 Print Assumptions C11_not_found_changes_nothing.
 
+(* 5. a path that is empty, or begins with a stray separator '|' or a stray '=', resolves to nothing,
+      on every tree — for the option getter and for the section getter *)
+Theorem C11_stray_head_not_found :
+  forall (w : pw) (c : cfg) (ch : byte) (p : str), counts_ok c ->
+  is_bar_eq ch = true ->
+  rs_opt (getopt_secidx c (ch :: p) false) = None /\ snd (cfg_getsec w c (ch :: p)) = None.
+Proof. exact stray_head_not_found. Qed.
+Print Assumptions C11_stray_head_not_found.
+
+Theorem C11_empty_path_not_found :
+  forall (w : pw) (c : cfg), counts_ok c ->
+  rs_opt (getopt_secidx c [] false) = None /\ snd (cfg_getsec w c []) = None.
+Proof. exact empty_path_not_found. Qed.
+Print Assumptions C11_empty_path_not_found.
+
+Example C11_stray_heads : is_bar_eq x7c = true /\ is_bar_eq x3d = true /\ is_bar_eq x61 = false.
+Proof. vm_compute. repeat split. Qed.
+
 (* the side condition is decidable on a concrete tree *)
 Theorem C11_counts_checkable :
   forall c : cfg, counts_okb c = true -> counts_ok c.
